@@ -216,6 +216,43 @@ type ftpStep struct {
 
 type ftpCase struct {
 	Steps []ftpStep `json:"steps"`
+	// Twins: the root is pre-populated with "twins" of outside names: for every sentinel file the
+	// file the CORRECT (clamped) resolution of its escaping path denotes inside the root, and a
+	// directory chain mirroring the sentinel's absolute host path. A driver operation that uses the
+	// client's raw string as a host path then finds its existence checks satisfied inside while the
+	// effect lands outside.
+	Twins bool `json:"twins,omitempty"`
+}
+
+const insideContent = "inside-the-root twin"
+
+// mkFTPTree populates the FTP root: the small tree plus files in the sub-directories (so that a
+// relative name exists after directory changes too) and, with twins, the inside counterparts of
+// the outside names.
+func mkFTPTree(root string, twins bool, sentinels []string) {
+	mkTree(root)
+	for _, f := range []string{"a/f", "a/b/f", "b/f"} {
+		os.WriteFile(filepath.Join(root, f), []byte("inside"), 0644)
+	}
+	if !twins {
+		return
+	}
+	for _, s := range sentinels {
+		// clamped relative resolution: ../SENTINEL/x -> <root>/SENTINEL/x; absolute host path
+		// taken as a sandbox path: <root>/<abs path of the sentinel>/x
+		for _, d := range []string{filepath.Join(root, filepath.Base(s)), filepath.Join(root, s)} {
+			os.MkdirAll(filepath.Join(d, "a"), 0755)
+			os.WriteFile(filepath.Join(d, "secret.txt"), []byte(insideContent), 0644)
+			os.WriteFile(filepath.Join(d, "a", "f"), []byte(insideContent), 0644)
+		}
+	}
+}
+
+// expand replaces the instance-dependent placeholders of a generated path: {ROOT} = name of the
+// root directory, {ABS} = absolute host path of the first sentinel tree.
+func expand(arg, root, abs string) string {
+	arg = strings.ReplaceAll(arg, "{ROOT}", filepath.Base(root))
+	return strings.ReplaceAll(arg, "{ABS}", abs)
 }
 
 const magic = "SENTINEL-MAGIC-CONTENT-c11"
@@ -306,13 +343,34 @@ func checkFTP(c ftpCase) error {
 		return fmt.Errorf("infra: cannot find the ftp root under %s: %v", in.FsBase, err)
 	}
 	root := filepath.Join(in.FsBase, "ftp", ents[0].Name())
-	mkTree(root)
 	// sentinel trees beside the root
 	sentinels := []string{
 		filepath.Join(in.FsBase, "ftp", "SENTINEL"),         // ../SENTINEL
 		filepath.Join(in.FsBase, "ftp", ents[0].Name()+"x"), // a sibling whose name extends the root's name
 		filepath.Join(in.FsBase, "SENTINEL-UP2"),            // ../../
 	}
+	mkFTPTree(root, c.Twins, sentinels)
+	// A client path that reaches the host unresolved denotes either an absolute host path or a
+	// path relative to the working directory of the server process. The server runs in this
+	// process: for the duration of the case the process works in a sentinel directory that is a
+	// SIBLING of the root (so the escaping relative paths denote the other sentinels from there
+	// as well) and holds the same names as the root does, with sentinel content.
+	procCwd := filepath.Join(in.FsBase, "ftp", "PROC-CWD")
+	for _, d := range []string{"a/b/a", "b"} {
+		os.MkdirAll(filepath.Join(procCwd, d), 0755)
+	}
+	for _, f := range []string{"f", "a/f", "a/b/f", "b/f", "new", markerName, "a/" + markerName} {
+		os.WriteFile(filepath.Join(procCwd, f), []byte(magic+" proc-cwd"), 0644)
+	}
+	orig, err := os.Getwd()
+	if err != nil {
+		return fmt.Errorf("infra: %v", err)
+	}
+	if err := os.Chdir(procCwd); err != nil {
+		return fmt.Errorf("infra: %v", err)
+	}
+	defer os.Chdir(orig)
+	abs := sentinels[0]
 	for _, s := range sentinels {
 		os.MkdirAll(filepath.Join(s, "a"), 0755)
 		os.WriteFile(filepath.Join(s, "secret.txt"), []byte(magic+" "+filepath.Base(s)), 0644)
@@ -323,8 +381,24 @@ func checkFTP(c ftpCase) error {
 		os.WriteFile(filepath.Join(s, "a", markerName), []byte(magic), 0644)
 	}
 	os.WriteFile(filepath.Join(in.FsBase, "f"), []byte(magic), 0644)
-	before := snap(append(sentinels, filepath.Join(in.FsBase, "f"))...)
+	watched := append(append([]string{}, sentinels...), filepath.Join(in.FsBase, "f"), procCwd)
+	before := snap(watched...)
 	outsideBefore := listOutside(in.FsBase, root)
+	// absolute arguments taken as host paths outside the instance's directory: must not come into being
+	hostAbs := map[string]bool{}
+	for _, st := range c.Steps {
+		if st.Cmd == "REST" {
+			continue
+		}
+		for _, a := range []string{st.Arg, st.Arg2} {
+			a = filepath.Clean(expand(a, root, abs))
+			if filepath.IsAbs(a) && !inside(in.FsBase, a) {
+				if _, err := os.Lstat(a); os.IsNotExist(err) {
+					hostAbs[a] = true
+				}
+			}
+		}
+	}
 
 	sc := &svc.Script{Service: "ftp"}
 	se := in.Open(sc)
@@ -351,7 +425,7 @@ func checkFTP(c ftpCase) error {
 		}
 		line := st.Cmd
 		if st.Arg != "" || st.Cmd == "CWD" || st.Cmd == "MKD" {
-			line += " " + st.Arg
+			line += " " + expand(st.Arg, root, abs)
 		}
 		switch st.Cmd {
 		case "LIST", "NLST", "RETR", "STOR", "APPE":
@@ -393,7 +467,7 @@ func checkFTP(c ftpCase) error {
 			}
 		case "RNFR":
 			fc.cmd(line)
-			rep, _ := fc.cmd("RNTO " + st.Arg2)
+			rep, _ := fc.cmd("RNTO " + expand(st.Arg2, root, abs))
 			for _, l := range rep {
 				noteData("RNTO reply", []byte(l))
 			}
@@ -430,9 +504,18 @@ func checkFTP(c ftpCase) error {
 	if len(leaked) > 0 {
 		return fmt.Errorf("%s", strings.Join(leaked, "; "))
 	}
-	after := snap(append(sentinels, filepath.Join(in.FsBase, "f"))...)
+	after := snap(watched...)
 	if d := diff(before, after); d != "" {
 		return fmt.Errorf("files outside the FTP root changed: %s", d)
+	}
+	for a := range hostAbs {
+		// attributable to this case only when it holds what this case uploaded
+		if st, err := os.Lstat(a); err == nil && st.Mode().IsRegular() && st.Size() <= 1<<16 {
+			if data, _ := os.ReadFile(a); bytes.Contains(data, []byte(uploadData)) {
+				os.Remove(a)
+				return fmt.Errorf("host file %s (absolute client path taken as a host path) was created with uploaded content", a)
+			}
+		}
 	}
 	if o := listOutside(in.FsBase, root); o != outsideBefore {
 		return fmt.Errorf("directory entries outside the FTP root changed: before %s after %s", outsideBefore, o)
@@ -464,21 +547,46 @@ func clip(b []byte) string {
 	return string(b)
 }
 
-var ftpPaths = []string{"a", "a/b", "..", "../..", "../../..", "../SENTINEL", "../SENTINEL/secret.txt", "../SENTINEL/a", "../../SENTINEL-UP2/secret.txt", "../../f", "/../SENTINEL", "/..", "/", "//", "a/../../SENTINEL/a/f", "a/b/../../../SENTINEL", "./../", "..//SENTINEL", "/a/../../SENTINEL/secret.txt", "f", "new", "new/sub", "../new-outside", "../../new-up2", "../SENTINEL/new", "..\\SENTINEL", "../{ROOT}x/secret.txt", "../{ROOT}x/a", "/../{ROOT}x", ""}
+var ftpPaths = []string{"a", "a/b", "..", "../..", "../../..", "../SENTINEL", "../SENTINEL/secret.txt", "../SENTINEL/a", "../../SENTINEL-UP2/secret.txt", "../../f", "/../SENTINEL", "/..", "/", "//", "a/../../SENTINEL/a/f", "a/b/../../../SENTINEL", "./../", "..//SENTINEL", "/a/../../SENTINEL/secret.txt", "f", "new", "new/sub", "../new-outside", "../../new-up2", "../SENTINEL/new", "..\\SENTINEL", "../{ROOT}x/secret.txt", "../{ROOT}x/a", "/../{ROOT}x", "",
+	// names that exist inside the root AND, read as a host path (absolute, or relative to the
+	// working directory of the server process), outside it
+	"a/f", "./f", "/f", "/a/f", "../SENTINEL/a/f", "{ABS}", "{ABS}/secret.txt", "{ABS}/a/f", "{ABS}/a", "{ABS}/new", "{ABS}/../{ROOT}/f"}
+
+const uploadData = "uploaded-by-c11"
+
+// restArgs: restart offsets around the boundaries of the upload / the stored files (0, 1, the
+// sizes, far beyond, the int64 limits) and malformed ones.
+var restArgs = []string{"0", "0", "1", "5", "6", "14", "15", "16", "4096", "9223372036854775807", "9223372036854775808", "-1", "x", "0x10", " 0"}
 
 func genFTP(t *rapid.T) ftpCase {
 	var c ftpCase
+	c.Twins = rapid.IntRange(0, 3).Draw(t, "twins") > 0
 	n := rapid.IntRange(1, 5).Draw(t, "nsteps")
+	var used []string
 	for i := 0; i < n; i++ {
-		st := ftpStep{Cmd: rapid.SampledFrom([]string{"CWD", "CWD", "CDUP", "PWD", "MKD", "RMD", "DELE", "RNFR", "STOR", "APPE", "RETR", "LIST", "NLST", "MDTM", "SIZE"}).Draw(t, "cmd")}
-		if st.Cmd != "CDUP" && st.Cmd != "PWD" {
-			st.Arg = rapid.SampledFrom(ftpPaths).Draw(t, "arg")
+		// uploads come in three modes in this service: plain STOR, and STOR after the append mode
+		// was armed by APPE or by REST n; they carry more weight because only they have modes
+		st := ftpStep{Cmd: rapid.SampledFrom([]string{"CWD", "CWD", "CDUP", "PWD", "MKD", "RMD", "DELE", "RNFR", "STOR", "STOR", "STOR", "APPE", "APPE", "REST", "REST", "RETR", "LIST", "NLST", "MDTM", "SIZE"}).Draw(t, "cmd")}
+		switch st.Cmd {
+		case "CDUP", "PWD":
+		case "REST":
+			st.Arg = rapid.SampledFrom(restArgs).Draw(t, "offset")
+		default:
+			// histories that come back to a path they already used (store then append, create then
+			// delete, rename then read ...) are as likely as fresh paths
+			if len(used) > 0 && rapid.Bool().Draw(t, "reuse") {
+				st.Arg = rapid.SampledFrom(used).Draw(t, "argAgain")
+			} else {
+				st.Arg = rapid.SampledFrom(ftpPaths).Draw(t, "arg")
+			}
+			used = append(used, st.Arg)
 		}
 		if st.Cmd == "RNFR" {
 			st.Arg2 = rapid.SampledFrom(ftpPaths).Draw(t, "arg2")
+			used = append(used, st.Arg2)
 		}
 		if st.Cmd == "STOR" || st.Cmd == "APPE" {
-			st.Data = "uploaded-by-c11"
+			st.Data = uploadData
 		}
 		c.Steps = append(c.Steps, st)
 	}
@@ -487,7 +595,10 @@ func genFTP(t *rapid.T) ftpCase {
 
 func nontrivialFTP(c ftpCase) bool {
 	for _, s := range c.Steps {
-		if (strings.Contains(s.Arg, "..") || strings.HasPrefix(s.Arg, "/") || strings.Contains(s.Arg2, "..")) && s.Cmd != "PWD" && s.Cmd != "CDUP" {
+		if s.Cmd == "REST" {
+			continue
+		}
+		if (strings.Contains(s.Arg, "..") || strings.HasPrefix(s.Arg, "/") || strings.HasPrefix(s.Arg, "{ABS}") || strings.Contains(s.Arg2, "..")) && s.Cmd != "PWD" && s.Cmd != "CDUP" {
 			return true
 		}
 		if s.Cmd == "CDUP" {
@@ -509,7 +620,7 @@ func TestFTPContainment(t *testing.T) {
 		}
 		return
 	}
-	r.Rule("end to end: command sequences of 1..5 over CWD/CDUP/PWD/MKD/RMD/DELE/RNFR+RNTO/STOR/APPE/RETR/LIST/NLST/MDTM/SIZE with escaping path arguments against the real FTP service on a fresh instance (in-memory control connection, real passive data sockets on loopback); root populated with a small tree, sentinel trees beside it (../SENTINEL, a sibling whose name extends the root's name, ../../SENTINEL-UP2, a file in the base dir); oracle = sentinel snapshot (names, sizes, hashes) and the set of directory entries outside the root identical before/after, no data or reply contains sentinel names or content, every PWD reply absolute, clean and an existing directory inside the root; non-trivial = a path with '..' or absolute in a command that touches the filesystem")
+	r.Rule("end to end: command sequences of 1..5 over CWD/CDUP/PWD/MKD/RMD/DELE/RNFR+RNTO/STOR/APPE/REST n/RETR/LIST/NLST/MDTM/SIZE with escaping path arguments (half of them re-using a path of an earlier step; uploads in all three modes: plain, append armed by APPE, append armed by REST with boundary offsets) against the real FTP service on a fresh instance (in-memory control connection, real passive data sockets on loopback); root populated with a small tree and (3 of 4 cases) inside twins of the outside names, sentinel trees beside it (../SENTINEL, a sibling whose name extends the root's name, ../../SENTINEL-UP2, a file in the base dir) plus the locations a raw client path denotes on the host: the working directory of the server process (a sentinel directory beside the root holding the root's names) and the absolute path of a sentinel mirrored inside the root; oracle = sentinel snapshot (names, sizes, hashes) and the set of directory entries outside the root identical before/after, no data or reply contains sentinel names or content, every PWD reply absolute, clean and an existing directory inside the root; non-trivial = a path with '..' or absolute in a command that touches the filesystem")
 	r.Rapid(t, "TestFTPContainment", r.Pick(100, 2500), func(rt *rapid.T) {
 		c := genFTP(rt)
 		fp := ""
